@@ -431,6 +431,18 @@ blocked_not_sleeping(int tid)
     return s == T_BLK_MUTEX || s == T_BLK_COND || s == T_BLK_JOIN;
 }
 
+bool
+poke_cond_waiter(int tid)
+{
+    Thread* t = K.threads[tid];
+    if (t->state != T_BLK_COND)
+        return false;
+    t->state = T_RUNNABLE;
+    t->spurious = true;
+    probe("k.pokes");
+    return true;
+}
+
 const char*
 block_reason(int tid)
 {
